@@ -63,8 +63,47 @@ func CalleeObj(c *ssa.CallCommon) *types.Func {
 				return synthTarget(f)
 			}
 		}
+	case *ssa.UnOp:
+		// call through a package-level function variable assigned exactly once in the
+		// package initializer (`var IsEmptyHardState = etcdraft.IsEmptyHardState`)
+		if g, ok := v.X.(*ssa.Global); ok && v.Op == token.MUL {
+			if f := globalFuncValue(g); f != nil {
+				if o, ok := f.Object().(*types.Func); ok {
+					return o
+				}
+			}
+		}
 	}
 	return nil
+}
+
+var globalFuncCache = map[*ssa.Global]*ssa.Function{}
+
+func globalFuncValue(g *ssa.Global) *ssa.Function {
+	if f, ok := globalFuncCache[g]; ok {
+		return f
+	}
+	var found *ssa.Function
+	n := 0
+	if g.Pkg != nil {
+		if init := g.Pkg.Func("init"); init != nil {
+			for _, b := range init.Blocks {
+				for _, in := range b.Instrs {
+					if st, ok := in.(*ssa.Store); ok && st.Addr == g {
+						n++
+						if f, ok := st.Val.(*ssa.Function); ok {
+							found = f
+						}
+					}
+				}
+			}
+		}
+	}
+	if n != 1 {
+		found = nil
+	}
+	globalFuncCache[g] = found
+	return found
 }
 
 func isWrapper(f *ssa.Function) bool {
